@@ -14,6 +14,7 @@ import (
 	"time"
 
 	"github.com/zenon-network/go-zenon/chain/nom"
+	"github.com/zenon-network/go-zenon/common/types"
 	"github.com/zenon-network/go-zenon/rpc/api"
 	"github.com/zenon-network/go-zenon/rpc/api/embedded"
 	"github.com/zenon-network/go-zenon/rpc/api/subscribe"
@@ -47,7 +48,22 @@ type rpcEnv struct {
 	// sentinel
 	sentinelBody   []byte
 	sentinelExpect string
+	instances      []*instance // paged instances of the chain (matrix requests)
 }
+
+// probeService is a handler with controlled faults, registered next to the real APIs: the mechanism under test is the
+// server's per-call panic containment (rpc/server/service.go callback.call) and its handling of failing handlers.
+type probeService struct{}
+
+func (probeService) Boom() (string, error) { panic("c18 probe: boom") }
+func (probeService) NilDeref() (int, error) {
+	var p *struct{ X int }
+	return p.X, nil
+}
+func (probeService) Fail() (string, error)               { return "", fmt.Errorf("c18 probe: failed") }
+func (probeService) Echo(s string) (string, error)       { return s, nil }
+func (probeService) Unmarshalable() (interface{}, error) { return make(chan int), nil }
+func (probeService) NoReturn()                           {}
 
 func newRPCEnv(ci *chainIndex) *rpcEnv {
 	z := &zAdapter{ci.n}
@@ -78,6 +94,7 @@ func newRPCEnv(ci *chainIndex) *rpcEnv {
 	reg("embedded.htlc", embedded.NewHtlcApi(z))
 	reg("embedded.bridge", embedded.NewBridgeApi(z))
 	reg("embedded.liquidity", embedded.NewLiquidityApi(z))
+	reg("c18probe", probeService{})
 	e := &rpcEnv{ci: ci, srv: srv, ledger: ledger}
 	e.sentinelBody = []byte(`{"jsonrpc":"2.0","id":"c18-sentinel","method":"ledger.getFrontierMomentum","params":[]}`)
 	m, err := ledger.GetFrontierMomentum()
@@ -157,10 +174,21 @@ func reqJSON(id string, method string, params []string) []byte {
 
 func (v validCall) body(id string) []byte { return reqJSON(id, v.Method, v.Params) }
 
-func (v validCall) expect() string {
+// setupProblems collects direct-call failures met while the request list is built (reported by the child as findings of
+// their own; the affected requests then only require a well-formed answer).
+var setupProblems []string
+
+func (v validCall) expect() (out string) {
+	defer func() {
+		if p := recover(); p != nil {
+			setupProblems = append(setupProblems, fmt.Sprintf("%s: direct call %s panics: %v", v.Name, v.Method, p))
+			out = ""
+		}
+	}()
 	res, err := v.Direct()
 	if err != nil {
-		panic(fmt.Sprintf("valid call %s fails directly: %v", v.Name, err))
+		setupProblems = append(setupProblems, fmt.Sprintf("%s: direct call %s fails: %v", v.Name, v.Method, err))
+		return ""
 	}
 	return canonJSON(mustJSON(res))
 }
@@ -179,7 +207,7 @@ var wrongValues = []struct{ name, json string }{
 	{"num-as-str", `"1"`}, {"bad-address", `"z1qqqqqqqqqqqqqqqqqqqqqqqqqqqqqqqqqqqqqq"`}, {"bad-hash", `"zz"`}, {"hex-0x", `"0x01"`},
 }
 
-func (e *rpcEnv) requests() []creq {
+func (e *rpcEnv) requests(tier string) []creq {
 	var out []creq
 	add := func(c creq) { out = append(out, c) }
 	vcs := e.validCalls()
@@ -309,6 +337,19 @@ func (e *rpcEnv) requests() []creq {
 	add(creq{Class: "publish:empty-object", Body: []byte(`{"jsonrpc":"2.0","id":1,"method":"ledger.publishRawTransaction","params":[{}]}`)})
 	add(creq{Class: "publish:garbage-object", Body: []byte(`{"jsonrpc":"2.0","id":1,"method":"ledger.publishRawTransaction","params":[{"amount":"x","nonce":"zz","height":-1,"descendantBlocks":[null,{}]}]}`)})
 	add(creq{Class: "publish:nested-pairs", Body: []byte(`{"jsonrpc":"2.0","id":1,"method":"ledger.publishRawTransaction","params":[{"pairedAccountBlock":{"pairedAccountBlock":{"pairedAccountBlock":null}},"token":null,"confirmationDetail":{}}]}`)})
+	// handlers that fail: the call is answered with an error, the server lives on
+	probe := func(m string, params string) []byte {
+		return []byte(`{"jsonrpc":"2.0","id":1,"method":"c18probe.` + m + `","params":[` + params + `]}`)
+	}
+	add(creq{Class: "contain:panic", Body: probe("boom", ""), ExpectErr: true})
+	add(creq{Class: "contain:nil-dereference", Body: probe("nilDeref", ""), ExpectErr: true})
+	add(creq{Class: "contain:handler-error", Body: probe("fail", ""), ExpectErr: true})
+	add(creq{Class: "contain:unmarshalable-result", Body: probe("unmarshalable", ""), ExpectErr: true})
+	add(creq{Class: "contain:no-return-value", Body: probe("noReturn", ""), Expect: "null"})
+	add(creq{Class: "contain:echo", Body: probe("echo", `"x\u0000\ud800y"`), Expect: canonJSON([]byte(`"x\u0000\ufffdy"`))})
+	add(creq{Class: "contain:echo-4MiB", Body: probe("echo", `"`+big[:4*1024*1024]+`"`), Expect: `"` + big[:4*1024*1024] + `"`})
+	add(creq{Class: "contain:panic-notification", Body: []byte(`{"jsonrpc":"2.0","method":"c18probe.boom","params":[]}`)})
+	add(creq{Class: "contain:batch-with-panics", Body: batch(string(probe("boom", "")), v1(2), `{"jsonrpc":"2.0","id":3,"method":"c18probe.nilDeref"}`, `{"jsonrpc":"2.0","method":"c18probe.boom"}`, v1(4))})
 	// K. other malformed envelopes
 	for _, kv := range []struct{ name, body string }{
 		{"null", "null"}, {"true", "true"}, {"number", "123"}, {"string", `"str"`}, {"empty-object", "{}"}, {"only-version", `{"jsonrpc":"2.0"}`}, {"only-id", `{"id":1}`},
@@ -345,26 +386,57 @@ func (e *rpcEnv) requests() []creq {
 	add(creq{Class: "http:json-rpc-content-type", HTTPOnly: true, Body: vcs[0].body("1"), ContentType: "application/json-rpc; charset=utf-8", Expect: vcs[0].expect()})
 	add(creq{Class: "http:unknown-length", HTTPOnly: true, Body: vcs[1].body("1"), NoLength: true, Expect: vcs[1].expect()})
 	// J. the valid request truncated at EVERY byte (3 calls: no params, three scalar params, one object param)
-	for _, v := range []validCall{vcs[0], vcs[1], vcs[4]} {
+	truncated := []validCall{vcs[0], vcs[1], vcs[4]}
+	if tier == "thorough" {
+		truncated = vcs // all six, plus a batch of three calls
+	}
+	for _, v := range truncated {
 		body := v.body("1")
 		for cut := 0; cut < len(body); cut++ {
 			add(creq{Class: fmt.Sprintf("truncate:%s@%03d", v.Name, cut), Body: body[:cut]})
 		}
 	}
+	if tier == "thorough" {
+		body := batch(string(vcs[0].body("1")), string(vcs[1].body("2")), `{"jsonrpc":"2.0","method":"ledger.getFrontierMomentum"}`)
+		for cut := 0; cut < len(body); cut++ {
+			add(creq{Class: fmt.Sprintf("truncate:B3@%03d", cut), Body: body[:cut]})
+		}
+	}
 	return out
 }
 
-// matrixRequests: the paging grid of a few methods through the server (callback.call included); the expected answer is
-// what the direct call returns (result, error, or — when the direct call panics — an error response).
-func (e *rpcEnv) matrixRequests() []creq {
+// argsJSON renders the fixed (non-paging) arguments of an instance as JSON parameters.
+func argsJSON(in *instance) []string {
+	addrLabels := map[string]string{"user1": u1.String(), "user2": u2.String(), "user3": u3.String(), "user4": u4.String(), "unknown": unknownAddr.String(),
+		"tokenContract": types.TokenContract.String(), "stakeContract": types.StakeContract.String(), "pillarContract": types.PillarContract.String(), "pillar1": p1addr.String()}
+	switch {
+	case in.Arg == "":
+		return nil
+	case in.Method == "embedded.pillar.getPillarEpochHistory":
+		return []string{string(mustJSON(in.Arg))}
+	case strings.HasPrefix(in.Arg, "epoch="):
+		return []string{strings.TrimPrefix(in.Arg, "epoch=")}
+	case strings.HasPrefix(in.Arg, `"`):
+		return strings.Split(in.Arg, ",")
+	}
+	if a, ok := addrLabels[in.Arg]; ok {
+		return []string{`"` + a + `"`}
+	}
+	panic("argsJSON: unknown fixed-argument label " + in.Arg)
+}
+
+// matrixRequests: the paging grid through the server (callback.call included). For a few methods the expected answer is
+// the JSON of what the direct call returns (result, error, or — when the direct call panics — an error response); in
+// the thorough tier every paged instance of the chain is driven this way and compared on error-vs-result, list length
+// and count field.
+func (e *rpcEnv) matrixRequests(tier string) []creq {
 	var out []creq
 	ci := e.ci
-	wanted := map[string]bool{"ledger.getAccountBlocksByPage(user1)": true, "ledger.getMomentumsByHeight": true, "ledger.getAccountBlocksByHeight(user1)": true, "embedded.token.getAll": true,
+	full := map[string]bool{"ledger.getAccountBlocksByPage(user1)": true, "ledger.getMomentumsByHeight": true, "ledger.getAccountBlocksByHeight(user1)": true, "embedded.token.getAll": true,
 		"embedded.accelerator.getAll": true, "embedded.pillar.getFrontierRewardByPage(pillar1)": true, "embedded.stake.getEntriesByAddress(user1)": true, "embedded.pillar.getPillarEpochHistory(TEST-pillar-1)": true}
-	prefix := map[string]string{"ledger.getAccountBlocksByPage(user1)": `"` + u1.String() + `"`, "ledger.getAccountBlocksByHeight(user1)": `"` + u1.String() + `"`,
-		"embedded.pillar.getFrontierRewardByPage(pillar1)": `"` + p1addr.String() + `"`, "embedded.stake.getEntriesByAddress(user1)": `"` + u1.String() + `"`, "embedded.pillar.getPillarEpochHistory(TEST-pillar-1)": `"TEST-pillar-1"`}
-	for _, in := range buildInstances(ci) {
-		if !wanted[in.label()] {
+	e.instances = buildInstances(ci)
+	for idx, in := range e.instances {
+		if !full[in.label()] && tier != "thorough" {
 			continue
 		}
 		N := len(in.Truth)
@@ -380,15 +452,48 @@ func (e *rpcEnv) matrixRequests() []creq {
 				if !in.Height && b > 1<<32-1 {
 					continue
 				}
-				ps := []string{fmt.Sprint(a), fmt.Sprint(b)}
-				if p, ok := prefix[in.label()]; ok {
-					ps = append([]string{p}, ps...)
+				ps := append(append([]string{}, argsJSON(in)...), fmt.Sprint(a), fmt.Sprint(b))
+				exp := fmt.Sprintf("directpaged:%d:%d:%d", idx, a, b)
+				if full[in.label()] {
+					exp = "direct:" + in.label() + fmt.Sprintf(":%d:%d", a, b)
 				}
-				out = append(out, creq{Class: fmt.Sprintf("matrix:%s:%d:%d", in.label(), a, b), Body: reqJSON("1", in.Method, ps), HTTPOnly: true, Expect: "direct:" + in.label() + fmt.Sprintf(":%d:%d", a, b)})
+				out = append(out, creq{Class: fmt.Sprintf("matrix:%s:%d:%d", in.label(), a, b), Body: reqJSON("1", in.Method, ps), HTTPOnly: true, Expect: exp})
 			}
 		}
 	}
 	return out
+}
+
+// directPaged compares a served result with the direct call of instance idx on list length and count.
+func (e *rpcEnv) directPaged(spec string, g gotResp, raw json.RawMessage) string {
+	var idx int
+	var a, b uint64
+	if _, err := fmt.Sscanf(strings.TrimPrefix(spec, "directpaged:"), "%d:%d:%d", &idx, &a, &b); err != nil {
+		panic(err)
+	}
+	o := safeCall(e.instances[idx], a, b)
+	switch {
+	case o.hung:
+		return "direct call did not return"
+	case o.panicked != nil || o.err != nil:
+		if !g.IsErr {
+			return fmt.Sprintf("direct call fails (%v %v) but the server returned a result", o.panicked, o.err)
+		}
+		return ""
+	case g.IsErr:
+		return "direct call succeeds but the server answered with error " + g.Code + ": " + clip(string(raw), 200)
+	}
+	var lst struct {
+		Count *json.Number      `json:"count"`
+		List  []json.RawMessage `json:"list"`
+	}
+	if err := json.Unmarshal([]byte(g.Result), &lst); err != nil || lst.Count == nil {
+		return "served result is not a {count, list} object: " + clip(g.Result, 160)
+	}
+	if lst.Count.String() != fmt.Sprint(o.res.Count) || len(lst.List) != len(o.res.List) {
+		return fmt.Sprintf("served count=%s len(list)=%d, direct call count=%d len(list)=%d", lst.Count, len(lst.List), o.res.Count, len(o.res.List))
+	}
+	return ""
 }
 
 func min(a, b int) int {
@@ -611,7 +716,11 @@ func (e *rpcEnv) matchResponses(c *creq, ve valueExpect, raws []json.RawMessage,
 			if c.ExpectErr && !g.IsErr {
 				return "the call was answered with a result although its parameters are unusable: " + clip(g.Result, 160), "bad"
 			}
-			if c.Expect != "" {
+			if strings.HasPrefix(c.Expect, "directpaged:") {
+				if p := e.directPaged(c.Expect, g, raw); p != "" {
+					return p, "bad"
+				}
+			} else if c.Expect != "" {
 				want := c.Expect
 				wantErr := ""
 				if strings.HasPrefix(want, "direct:") {
@@ -795,8 +904,10 @@ func (e *rpcEnv) doHTTP(c *creq) tResult {
 
 // doPipe drives one connection: request bytes, then (when the stream is still in sync) the sentinel on the same connection.
 func (e *rpcEnv) doPipe(c *creq) tResult {
+	// the server's write deadline (10 s) and this driver's timeouts are the only clocks involved: a failure is reported
+	// only when it repeats
 	res := e.pipeOnce(c)
-	if res.Key == "hang" {
+	if res.Problem != "" {
 		res = e.pipeOnce(c)
 	}
 	return res
